@@ -432,6 +432,65 @@ func c17(r *Report) {
 	})
 
 	r.Guard("C17.R5", "only the recording and resetting functions change the log; exporting alone changes nothing", func() {
+		// the list an export hands out belongs to the caller: it is made in that call
+		// and shares no storage with the logger (a reused backing array is rewritten
+		// by the next export while the caller still reads the previous answer)
+		for _, fn := range []string{"Logger.Export", "Logger.ExportAndReset"} {
+			f := r.Use("har", fn)
+			if f == nil {
+				continue
+			}
+			var lists []ssa.Value
+			for _, c := range plainCalls(f, "(*M/har.Logger).makeHAR") {
+				lists = append(lists, c.Call.Args[1])
+			}
+			for _, in := range instrs(f) {
+				if st, ok := in.(*ssa.Store); ok {
+					if fa, isFa := st.Addr.(*ssa.FieldAddr); isFa && fieldObj(fa).Name() == "Entries" {
+						lists = append(lists, st.Val)
+					}
+				}
+			}
+			if len(lists) == 0 {
+				r.Undecided(fnName(f)+": exported entry list", "UNRESOLVED: neither makeHAR(es) nor a store to Log.Entries found")
+				continue
+			}
+			for _, v := range lists {
+				sl := w.backSlice(v, flowOpt{})
+				fresh := anyIn(sl, func(x ssa.Value) bool {
+					mk, ok := x.(*ssa.MakeSlice)
+					return ok && mk.Parent() == f
+				})
+				shared := anyIn(sl, func(x ssa.Value) bool {
+					fa, ok := x.(*ssa.FieldAddr)
+					if !ok || len(f.Params) == 0 || fa.X != ssa.Value(f.Params[0]) {
+						return false
+					}
+					_, isSlice := fieldObj(fa).Type().Underlying().(*types.Slice)
+					return isSlice
+				})
+				r.Decide("flow", fnName(f)+": the exported entry list is made in this call", fresh && !shared, "built by make() in the exporting call, not from a slice kept in the logger", "the exported list is backed by storage the logger keeps: a later export or reset rewrites the entries an earlier caller is still holding", v.Pos())
+			}
+		}
+
+		// "export-and-reset returns exactly the completed entries ... and keeps pending
+		// ones": callers get that from ExportAndReset, which does it in one critical
+		// section. An Export followed by a Reset is a different operation: it also
+		// returns and drops the entries still waiting for their response.
+		nER := 0
+		for _, f := range w.Funcs("har") {
+			g := G(f)
+			for _, c := range calls(f, "(*M/har.Logger).ExportAndReset") {
+				_ = c
+				nER++
+			}
+			for _, c := range calls(f, "(*M/har.Logger).Export") {
+				p := g.PathTo([]ssa.Instruction{c}, false, nil, func(i ssa.Instruction) bool { _, y := isCall(i, "(*M/har.Logger).Reset"); return y })
+				r.Decide("path", fnName(f)+": no Reset after an Export", p == nil, "Export is not followed by Reset", "Export() followed by Reset() stands in for ExportAndReset(): pending entries are returned and dropped, their responses are then ignored, and entries recorded between the two calls are lost", c.Pos())
+			}
+		}
+		r.Decide("callgraph", "the reset endpoint exports through ExportAndReset", nER >= 1, fmt.Sprintf("%d caller(s) of ExportAndReset in package har", nER), "nothing in package har calls ExportAndReset any more: the reset-and-return endpoint cannot keep pending entries", token.NoPos)
+
 		allowed := map[*types.Var]map[string]bool{
 			fEntries: {"(*M/har.Logger).RecordRequest": true, "(*M/har.Logger).ExportAndReset": true, "(*M/har.Logger).Reset": true, "M/har.NewLogger": true},
 			fTail:    {"(*M/har.Logger).RecordRequest": true, "(*M/har.Logger).ExportAndReset": true, "(*M/har.Logger).Reset": true, "M/har.NewLogger": true},
